@@ -34,7 +34,7 @@ def one(flavor, memb, seed, readers, updaters, rops, uops, extra=()):
     res = {"cmd": args, "env": env, "rc": rc}
     kinds = re.findall(r"ORACLE (\w+)", err)
     if rc not in (0, 3, 4, 5):
-        res.update(verdict="crash", stderr=err[-600:])
+        res.update(verdict="crash", stderr=err[-600:], hang=(rc == 124))
         return res
     drc, dout = vlib.sh([DRV], inp=out.encode(), timeout=300)
     res["driver"] = dout.strip().splitlines()[:2]
@@ -100,9 +100,9 @@ def suite(chk, nseeds, emphasis, own_kinds, rops=30, uops=3, extra_all=(), confi
             else:
                 r["config"] = cname
                 fails.append(r)
-                if len(fails) >= 3:
+                if len(fails) >= 3 or r.get("hang"):
                     break
-        if len(fails) >= 3:
+        if len(fails) >= 3 or any(x.get("hang") for x in fails):
             break
     chk.cov["traces_validated_against_impl"] = chk.cov["evaluations"] - len(fails)
     chk.cov["events_compared"] = events
@@ -146,6 +146,21 @@ def report(chk, fails, own_kinds, search):
                                          what="the code no longer issues the fence the x86-TSO proof needs (%s); Lean-checked TSO run of the algorithm without it violates gp_guarantee and gp_litmus" % dmsg[:160]))
             return
     ctx = " ".join(f.get("context") or [])
+    mw = re.search(r"ST (reader\S*): memory order (\d+) weaker than", dmsg)
+    if chk.pid in ("C01", "C02") and mw:
+        # a reader's publication of its own word lost its trailing full fence (on x86 a seq_cst store is xchg / mov+mfence,
+        # a release store is a plain mov): reader "ST word; LD <updater's flag / data>" against updater "ST flag; mb; LD word"
+        # is the store-buffering litmus with only one side fenced - reachable on x86-TSO, invisible to the SC harness
+        ok, log = vlib.lake_build(["UrcuVerif.Props.C20"])
+        if ok:
+            chk.fail("tso-witness", dict(f, scenario="gp", theorem="UrcuVerif.Uatomic.sb_reachable_one_sided",
+                                         model_run=["reader: ST own word (stays in its store buffer)", "reader: LD updater's variable = old value",
+                                                    "updater: ST its variable", "updater: full fence (flush)", "updater: LD reader word = old value",
+                                                    "-> both loads read the old values: the updater misses the reader (C01: section not waited for / "
+                                                    "C02: sleeps although the reader has already tested the wake-up flag)"],
+                                         what="the store to %s is no longer followed by a full fence (memory order %s instead of seq_cst): Lean-checked "
+                                              "x86-TSO store-buffering run with one unfenced side (%s)" % (mw.group(1), mw.group(2), dmsg[:140])))
+            return
     if "C02" == chk.pid and ("[reader slave fence]" in dmsg or "[master barrier" in dmsg) and re.search(r"\b(SUB|ADD|DEC|ST|LD)\w* gp\.futex", ctx):
         # a fence of the futex handshake is missing (between the leader's `dec futex` and its scan, or between the reader's
         # unlock store and its test of the futex): invisible to the SC harness, the Lean-checked x86-TSO run of the handshake
